@@ -555,6 +555,34 @@ def knots_snippet(inp):
                None if inp["atol"] is None else C.unhex(inp["atol"])))
 
 
+def _knots_call(job):
+    """one knot search in a forked worker (the searches are independent and dominate the wall time of this check): returns the outcome only;
+    every verdict is made in the parent on exactly the values the call returned"""
+    spec, a, b, ns, atol = job
+    from opda import approximation as A_
+    from opda import exceptions as E_
+    with warnings.catch_warnings():
+        warnings.simplefilter("ignore")
+        try:
+            knots, err = A_.piecewise_polynomial_knots(G.make_f(spec).np, a, b, ns, **({} if atol == "default" else dict(atol=atol)))
+            return ("ok", [float(k) for k in np.asarray(knots, dtype=float)], float(err), list(np.shape(knots)))
+        except E_.OptimizationError:
+            return ("opt",)
+        except Exception as e:  # noqa: BLE001
+            return ("exc", type(e).__name__, repr(e), str(e))
+
+
+def _knots_pool(jobs):
+    import multiprocessing as mp_
+    if len(jobs) <= 1:
+        return [_knots_call(j) for j in jobs]
+    try:
+        with mp_.get_context("fork").Pool(min(len(jobs), max(1, min(8, (os.cpu_count() or 2) - 1)))) as pool:
+            return pool.map(_knots_call, jobs, chunksize=1)
+    except Exception:  # noqa: BLE001   (no fork / no pool: same calls inline)
+        return [_knots_call(j) for j in jobs]
+
+
 def part_knots(rep, rng, drv, tier, A, E, cases=None):
     if cases is None:
         cases = []
@@ -582,6 +610,7 @@ def part_knots(rep, rng, drv, tier, A, E, cases=None):
             cases.append((spec_, a_, b_, ns_, None))
         # explicit atol that is a small but not negligible fraction (1 % .. 10 %) of the levelled error (the docstring suggests raising
         # atol on numerical trouble): the error level is estimated by a default-atol call on the same problem first
+        level_jobs = []
         for ci in range(6 if tier == "quick" else 40):
             kind = rng.choice(["pow", "exp"])
             spec, a, b = G.gen_function(rng, None, kinds=(kind,))
@@ -590,41 +619,34 @@ def part_knots(rep, rng, drv, tier, A, E, cases=None):
                 if kind == "pow":
                     b = min(b, 10.0)
             ns = [rng.randint(0, 3) for _ in range(rng.choice([2, 2, 3]))]
-            with warnings.catch_warnings():
-                warnings.simplefilter("ignore")
-                try:
-                    _k0, e0 = A.piecewise_polynomial_knots(G.make_f(spec).np, a, b, ns)
-                except Exception:  # noqa: BLE001  (judged in its own right by the default-atol cases above)
-                    continue
-            if not float(e0) > 1e-9:
+            level_jobs.append((spec, a, b, ns, rng.uniform(-2.0, -1.0)))
+        for (spec, a, b, ns, ex), r0 in zip(level_jobs, _knots_pool([(sp_, a_, b_, ns_, "default") for sp_, a_, b_, ns_, _ in level_jobs])):
+            if r0[0] != "ok" or not r0[2] > 1e-9:       # (a raising search is judged in its own right by the default-atol cases above)
                 continue
             rep.count("knots_atol=1..10%_of_the_levelled_error")
-            cases.append((spec, a, b, ns, float(e0) * 10.0 ** rng.uniform(-2.0, -1.0)))
+            cases.append((spec, a, b, ns, r0[2] * 10.0 ** ex))
     reqs, meta = [], []
-    for spec, a, b, ns, atol in cases:
+    outcomes = _knots_pool([(sp_, a_, b_, ns_, at_) for sp_, a_, b_, ns_, at_ in cases])
+    for (spec, a, b, ns, atol), oc in zip(cases, outcomes):
         f = G.make_f(spec)
         inp = knots_inp(spec, a, b, ns, atol)
         at = G.atol_value(atol)
         rep.count("knots_pieces=%d" % len(ns))
         rep.count("knots_f=" + spec["kind"])
-        with warnings.catch_warnings():
-            warnings.simplefilter("ignore")
-            try:
-                knots, err = A.piecewise_polynomial_knots(f.np, a, b, ns, atol=atol)
-            except E.OptimizationError:
-                rep.count("knots_outcome=OptimizationError(allowed)")
-                rep.case(("knots-raise", str(inp)), nontrivial=False)
-                continue
-            except Exception as e:  # noqa: BLE001
-                # remez on a zero-width piece produces a non-finite h, which lagrange_interpolate rejects
-                leak = isinstance(e, ValueError) and "must contain only finite floats" in str(e)
-                violate(rep, what="piecewise_polynomial_knots raised %s" % type(e).__name__, error=repr(e), input=inp,
-                            call=knots_snippet(inp),
-                            finding_key="C18-knots-zero-width-piece-ValueError" if leak else None)
-                continue
+        if oc[0] == "opt":
+            rep.count("knots_outcome=OptimizationError(allowed)")
+            rep.case(("knots-raise", str(inp)), nontrivial=False)
+            continue
+        if oc[0] == "exc":
+            # remez on a zero-width piece produces a non-finite h, which lagrange_interpolate rejects
+            leak = oc[1] == "ValueError" and "must contain only finite floats" in oc[3]
+            violate(rep, what="piecewise_polynomial_knots raised %s" % oc[1], error=oc[2], input=inp,
+                        call=knots_snippet(inp),
+                        finding_key="C18-knots-zero-width-piece-ValueError" if leak else None)
+            continue
         rep.count("knots_outcome=returned")
-        knots = np.asarray(knots, dtype=float)
-        err = float(err)
+        knots = np.asarray(oc[1], dtype=float).reshape(oc[3])
+        err = float(oc[2])
         rep.case(("knots", str(inp)), sample=dict(op="piecewise_polynomial_knots", input=inp, knots=knots, err=err))
         if knots.shape != (len(ns) + 1,) or knots[0] != a or knots[-1] != b or not np.all(np.diff(knots) > 0):
             repeated = knots.shape == (len(ns) + 1,) and bool(np.all(np.diff(knots) >= 0)) and bool(np.any(np.diff(knots) == 0))
